@@ -24,7 +24,7 @@ Theorem C09_trailing_whitespace_noop : forall l, ws_before_cr_free l ->
 Proof. exact fix_trailing_whitespace_noop. Qed.
 Print Assumptions C09_trailing_whitespace_noop.
 
-Require Import Shape ShapeProofs NormProofs.
+Require Import TokenizerProofs Symbols Inst Shape ShapeProofs NormProofs.
 (* both normalisers of rule_list.fix (after phase 1) are the identity on a list in which every blank_line object is
    alone on its line, no inner line is empty and no whitespace ends a line: the second fix run starts from such a
    list when the first left no trailing whitespace, so its normalisation step changes nothing *)
@@ -41,3 +41,13 @@ Print Assumptions C09_normalisers_identity_on_clean.
 Theorem C09_normalise_idempotent_refuted : exists l, normalise_toks (normalise_toks l) <> normalise_toks l.
 Proof. exact normalise_idempotent_refuted. Qed.
 Print Assumptions C09_normalise_idempotent_refuted.
+
+(* ... in particular on what the reader returns for a text without whitespace at the end of a line (C08_read_has_shape
+   gives the shape): the normalisation step of a second fix run is the identity *)
+Theorem C09_second_run_normalisation_is_identity : forall ls l,
+  vsg_read ls = Some l -> no_ws_cr l = true -> normalise_toks l = l.
+Proof.
+  intros ls l H Hw. apply normalisers_identity_on_reader_shape; [|exact Hw].
+  revert H. apply read_shape.
+Qed.
+Print Assumptions C09_second_run_normalisation_is_identity.
